@@ -79,7 +79,10 @@ func (m *Machine) rel3(n Num, c float64) int {
 	for _, t := range n.Tr {
 		switch t {
 		case "round", "float64", "int":
-			// identity on integral values (assumption recorded by the producer)
+			// compared as the value itself (exact for integral values; for fractional ones the rounding is ignored: recorded)
+			if t == "round" && !m.Integral(n.A) {
+				m.Assume("a fractional symbolic bound is compared without its math.Round (affects only --min-sized-ints with non-integral bounds)")
+			}
 		default:
 			panic(m.undecided("comparison of a transformed number (%s) with a constant", t))
 		}
@@ -121,7 +124,52 @@ func (m *Machine) numCmpConst(n Num, c float64, op string) (Tri, string) {
 }
 
 // numCmpNum: relation between two atoms: a 3-way order fact, decided once per pair.
+// Integral decides (forking once per atom) whether a symbolic number is an integer.
+func (m *Machine) Integral(a *Atom) bool {
+	if a.Kind == "PosInt" {
+		return true
+	}
+	return m.Decide(fmt.Sprintf("integral:%d", a.ID), 2, "integrality of "+a.String()) == 0
+}
+
+func isRounding(t string) bool {
+	switch t {
+	case "round", "trunc", "ceil", "floor":
+		return true
+	}
+	return strings.HasPrefix(t, "trunc-")
+}
+
 func (m *Machine) numRel(a, b Num) int {
+	if a.A == b.A && strings.Join(a.Tr, ",") != strings.Join(b.Tr, ",") {
+		// x against a rounded x: equal iff x is integral; otherwise the direction follows the rounding
+		if m.Integral(a.A) {
+			return 0
+		}
+		ra, rb := "", ""
+		for _, t := range a.Tr {
+			if isRounding(t) {
+				ra = t
+			}
+		}
+		for _, t := range b.Tr {
+			if isRounding(t) {
+				rb = t
+			}
+		}
+		switch {
+		case ra == "" && rb == "ceil":
+			return -1
+		case ra == "" && (rb == "floor"):
+			return 1
+		case ra == "ceil" && rb == "":
+			return 1
+		case ra == "floor" && rb == "":
+			return -1
+		}
+		// trunc / round of a non-integral value differs from it, direction unknown
+		return []int{-1, 1}[m.Decide(fmt.Sprintf("roundrel:%d:%s:%s", a.A.ID, ra, rb), 2, "direction of rounding")]
+	}
 	if a.A == b.A {
 		d := a.Off - b.Off
 		switch {
@@ -132,12 +180,15 @@ func (m *Machine) numRel(a, b Num) int {
 		}
 		return 0
 	}
-	if a.Off != 0 || b.Off != 0 || len(a.Tr) != 0 || len(b.Tr) != 0 {
-		panic(m.undecided("comparison between two transformed symbolic numbers"))
-	}
 	x, y, flip := a, b, 1
 	if x.A.ID > y.A.ID {
 		x, y, flip = b, a, -1
+	}
+	if a.Off != 0 || b.Off != 0 || len(a.Tr) != 0 || len(b.Tr) != 0 {
+		// transformed values are ordered as pseudo-atoms of their own (an over-approximation: more worlds)
+		key := fmt.Sprintf("ord:%d%+g|%s:%d%+g|%s", x.A.ID, x.Off, strings.Join(x.Tr, ","), y.A.ID, y.Off, strings.Join(y.Tr, ","))
+		ch := m.Decide(key, 3, "order of two transformed symbolic numbers")
+		return []int{-1, 0, 1}[ch] * flip
 	}
 	ch := m.Decide(fmt.Sprintf("ord:%d:%d", x.A.ID, y.A.ID), 3, fmt.Sprintf("order of %s and %s", x.A, y.A))
 	return []int{-1, 0, 1}[ch] * flip
